@@ -400,7 +400,12 @@ func symConv(dst types.BasicKind, x sv) value {
 		panic(engineError{"not encodable: symbolic integer converted to floating point"})
 	}
 	if dst == types.String {
-		panic(engineError{"not encodable: string(symbolic rune)"})
+		// string(rune): the real utf8.AppendRune, executed symbolically
+		i := x.T.tt.i
+		f := i.prog.ImportedPackage("unicode/utf8").Func("AppendRune")
+		r := symConv(types.Int32, x)
+		out := call(i, i.cur, token.NoPos, f, []value{[]value(nil), r})
+		return mkString(out.([]value))
 	}
 	_, signed := kindInfo(x.K)
 	w, _ := kindInfo(dst)
